@@ -238,8 +238,12 @@ def run_case(acc: Acc, seed: int, idx: int) -> None:
         if oa or ob:
             acc.violation("files vs SQL rows: " + describe_diff(oa, ob, "files", "index"), case, cls="recompiled files != indexed rows (" + _fields(oa, ob) + ")")
         keys_c = tuple(k for k in db.NOTE_KEYS if k not in ("section", "block_ord"))
-        rr = repo_recs(root)
-        oa, ob = multiset_diff(rr, dump.notes, keys_c)
+        try:
+            rr = repo_recs(root)
+        except Exception as e:
+            acc.violation(f"repo.get_notes_by_query(None) raised {type(e).__name__}: {e}", case, cls="repository API cannot read the index it just built")
+            rr = None
+        oa, ob = multiset_diff(rr, dump.notes, keys_c) if rr is not None else ([], [])
         if oa or ob:
             acc.violation("repo.get_notes_by_query(None) vs SQL rows: " + describe_diff(oa, ob, "repo", "index"), case, cls="repo notes != indexed rows (" + _fields(oa, ob) + ")")
         # fixpoints
